@@ -94,9 +94,22 @@ def probes(rng, m: ts.Model, g: gen.ProgGen) -> list[dict]:
     if m.vars and rng.random() < 0.4:
         v = sorted(m.vars)[0]
         out.append({"op": "delay", "duration": {"e": "var", "name": v}, "ch": n})
+    if m.vars and not m.param and idx_parity(rng):
+        # calls that carry a variable and are refused (or not) for an EOM-typestate reason: a refused one has not used
+        # the variable, the sequence stays in the mode it was in
+        v = {"e": "var", "name": sorted(m.vars)[0]}
+        out.append(gen.pick(rng, [
+            {"op": "add_eom_pulse", "ch": n, "duration": v, "phase": 0.0},
+            {"op": "enable_eom_mode", "ch": n, "amp_on": amp, "detuning_on": v},
+            {"op": "modify_eom_setpoint", "ch": n, "amp_on": amp, "detuning_on": v},
+            {"op": "add", "pulse": dict(pulse, phase=v), "ch": n}]))
     for o in out:
         o["_probe"] = True
     return out
+
+
+def idx_parity(rng) -> bool:
+    return rng.random() < 0.5
 
 
 class Tainted(Exception):
@@ -144,6 +157,12 @@ def _run_case(ctx, idx, rng, tier):
                 ctx.violation("mode", f"{op['op']} was refused ({type(ev.exc).__name__}) but switched the mode of a sequence "
                               f"without channels: XY {fl_a['in_xy']} -> {fl_b['in_xy']}, Ising {fl_a['in_ising']} -> "
                               f"{fl_b['in_ising']}", f"refused-call-changed-mode:{op['op']}")
+            if fl_a["building"] != fl_b["building"]:
+                # likewise for the parametrized mode: the refused call has not used its variable, yet inspection calls
+                # are refused from here on and later calls are only stored
+                ctx.violation("mode", f"{op['op']} was refused ({type(ev.exc).__name__}: {str(ev.exc)[:80]}) but left the "
+                              f"sequence parametrized (building {fl_a['building']} -> {fl_b['building']})",
+                              f"refused-call-changed-parametrized:{op['op']}")
             ctx.count("discarded_after_C09")  # partial effect of a raising call: reported by C09, walk abandoned
             raise Tainted()
         if verdict == ts.REFUSE and ok:
